@@ -403,6 +403,16 @@ class IncludeHandler(Handler):
                     )
                 return
 
+        if include_fileid in fileid_stack:
+            # This file is already being expanded further up: expanding it again would never end.
+            self.context.diagnostics[fileid_stack.current].append(
+                InvalidInclude(
+                    f"Circular include: '{include_fileid.as_posix()}' includes itself",
+                    node.span[0],
+                )
+            )
+            return
+
         include_page = self.pages.get(include_fileid)
         assert include_page is not None
         ast = include_page.ast
